@@ -352,8 +352,11 @@ class Spec:
         self.cursor_kind = k in ("default", "full") or k.startswith("buffered:")
         self.merged = k.startswith("merged:")
         self.kind = k
-        self.single_seen = False  # a one-row-at-a-time fetch happened (chunk may be held)
-        self.fetched = False
+        # ChunkedIteratorResult bookkeeping, used only to *classify* a lost-rows mismatch as the
+        # known finding: rows of the pulled chunk not yet handed out, and the chunk size in force
+        self.ch_pending = 0
+        self.ch_size = None
+        self.never_yp = True
         self.f17 = False
         self.hazard = None
         self.force_n = None   # batch size chosen for a size-less fetchmany()/partitions()
@@ -400,6 +403,15 @@ class Spec:
     def lst(self, items):
         return "L[" + ",".join(self.text(i) for i in items) + "]"
 
+    def ch_consume(self):
+        """one raw row leaves a ChunkedIteratorResult: pull a chunk if none is held"""
+        if not self.kind.startswith("chunked"):
+            return
+        if self.ch_pending == 0:
+            total = len(self.rem) + 1
+            self.ch_pending = min(self.ch_size, total) if self.ch_size else total
+        self.ch_pending -= 1
+
     def take(self, h, n):
         """consume rows until n items delivered (n=None: all); returns posted items.
         Raises Dead with expectation E:unhashable via return marker."""
@@ -407,6 +419,7 @@ class Spec:
         uq = h["uq"]
         while self.rem and (n is None or len(out) < n):
             raw = self.rem.pop(0)
+            self.ch_consume()
             it = self.mk(h, raw)
             if uq is not None:
                 k = self.key(uq["strat"], it)
@@ -436,9 +449,12 @@ class Spec:
             h["cols"] = [cur[i] for i in op[2]]
             return {"U"}
         if name == "yp":
-            if self.kind.startswith("chunked") and self.fetched:
-                self.hazard = "chunked-yield-per-after-fetch-drops-held-chunk"
+            if self.kind.startswith("chunked"):
+                if self.ch_pending > 0:
+                    self.hazard = "chunked-yield-per-after-fetch-drops-held-chunk"
+                self.ch_pending, self.ch_size = 0, op[2]
             self.yp = op[2]
+            self.never_yp = False
             return {"U"}
         if name == "sc":
             if self.sss:
@@ -484,17 +500,18 @@ class Spec:
             self.cursor_kind = False
             self.merged = False
             self.kind = "iter"
-            self.fetched = False
-            self.single_seen = False
+            self.ch_pending, self.ch_size = 0, None
+            self.never_yp = True
             return {"U"}
         if self.hard:
             return {"E:closed"}
         h = self.h(op[1]) if len(op) > 1 and op[1] in ("r", "v") else self.R
-        if self.kind == "chunked:1" and name in ("fm", "pt") and self.single_seen:
-            self.hazard = "chunked-dynamic-yield-per-fetchmany-drops-held-chunk"
-        self.fetched = True
-        if name in FETCH1:
-            self.single_seen = True
+        if self.kind == "chunked:1" and name in ("fm", "pt"):
+            # dynamic_yield_per: every _fetchmany_impl(size) restarts chunks(size)
+            if self.ch_pending > 0:
+                self.hazard = "chunked-dynamic-yield-per-fetchmany-drops-held-chunk"
+            self.ch_pending = 0
+            self.ch_size = op[2] if op[2] is not None else self.yp
         if name in ("f1", "nx"):
             items = self.take(h, 1)
             if items is None:
@@ -552,7 +569,8 @@ class Spec:
     def ambiguous_many(self, h, impl_out):
         """fetchmany() with neither size nor yield_per: the batch size is driver-defined;
         check_case explores every size >= 1 (`force_n`) and keeps the consistent ones"""
-        items = self.take(h, self.force_n)
+        # a plain DBAPI cursor hands out cursor.arraysize (= 1) rows
+        items = self.take(h, self.force_n if self.force_n is not None else 1)
         if items is None:
             raise Dead("E:unhashable")
         return {self.lst(items)}
@@ -560,7 +578,7 @@ class Spec:
     def ambiguous_parts(self, h, k, impl_out):
         parts = []
         for _ in range(k):
-            items = self.take(h, self.force_n)
+            items = self.take(h, self.force_n if self.force_n is not None else 1)
             if items is None:
                 raise Dead("E:unhashable")
             if not items:
@@ -569,8 +587,10 @@ class Spec:
         return {"P" + "|".join(self.lst(p)[1:] for p in parts)}
 
     def is_ambiguous(self, op):
+        """size-less fetchmany()/partitions() without yield_per on anything but a plain DBAPI
+        cursor: the batch is whatever the strategy / iterator hands over"""
         return (op[0] in ("fm", "pt") and op[2] is None and self.yp is None and self.hard is False
-                and len(self.rem) > 1)
+                and len(self.rem) > 1 and not (self.kind == "default" and self.never_yp))
 
     def only_one(self, h, name):
         second = name in ("one", "oon", "s1", "s1n")
@@ -613,6 +633,8 @@ def classify(case, i, spec):
     op = case["ops"][i]
     if spec.hazard:
         return spec.hazard
+    if case["sss"] and any(list(r) == [50] for r in case.get("rows", [])) and op[0] in ONLYONE + ("f1", "nx", "all", "fm", "it"):
+        return "scalar-source-none-row-read-as-end-of-result"
     if spec.f17 and op[0] in ONLYONE:
         return "unique-onlyone-after-partial-consumption"
     if case["kind"].startswith("merged:") and any(o[0] in ONLYONE + ("close",) for o in case["ops"][:i]) and spec.merged:
@@ -869,6 +891,82 @@ def gen_case(rng, tier, risky=False):
     return case
 
 
+def gen_getter(rng, t, view, small=True):
+    """one row-delivering call on handle t"""
+    y = rng.random()
+    if y < 0.15:
+        return ("nx", t) if (t == "v" and view == "scalars") else (rng.choice(["f1", "nx"]), t)
+    if y < 0.35:
+        return ("fm", t, rng.choice([1, 2, 3]))
+    if y < 0.55:
+        return ("fm", t, None)
+    if y < 0.70:
+        return ("pt", t, rng.choice([1, 2]), rng.choice([1, 2]))
+    if y < 0.85:
+        return ("pt", t, None, rng.choice([1, 2]))
+    return ("it", t, rng.choice([1, 2]))
+
+
+def gen_memo_scenario(rng, tier):
+    """use a getter, reconfigure the result mid-stream, use a getter again — on every result
+    kind, with enough rows left that a stale (memoized) configuration is visible"""
+    kind = gen_kind(rng)
+    sss = kind in ("iter", "chunked:0", "chunked:1", "merged") and rng.random() < 0.2
+    width = 1 if sss else rng.choice([1, 2, 3])
+    case = {"sss": sss, "width": width}
+    nrows = rng.randint(9, 14)
+    pool = [[rng.choice([0, 1, 2, 3, 4, 5]) for _ in range(width)] for _ in range(6)]
+    rows = [list(rng.choice(pool)) for _ in range(nrows)]
+    if kind == "merged":
+        kinds = ["iter"] * 2 if sss else [rng.choice(["iter", "default", "full", "buffered:%d" % rng.choice([1, 2, 5])]) for _ in range(2)]
+        case["kind"] = "merged:" + "+".join(kinds)
+        cut = rng.randint(0, nrows)
+        case["groups"] = [rows[:cut], rows[cut:]]
+    else:
+        case["kind"] = kind
+        case["rows"] = rows
+    ops = []
+    view = None
+    t = "r"
+    if rng.random() < 0.35:
+        if rng.random() < 0.5:
+            ops.append(("sc", 0 if sss else rng.randrange(width)))
+            view = "scalars"
+        else:
+            ops.append(("map",))
+            view = "mappings"
+        t = "v"
+    cur_w = 1 if view == "scalars" else width
+    if kind.startswith("chunked") and rng.random() < 0.7:
+        k0 = rng.choice([1, 2, 3])
+        ops.append(("yp", t, k0))
+        # whole chunks only, so that no chunk is held when the configuration changes
+        ops.append(rng.choice([("fm", t, k0), ("pt", t, k0, rng.choice([1, 2])), ("fm", t, None)]))
+    else:
+        if rng.random() < 0.3:
+            ops.append(("yp", t, rng.choice([1, 2, 3])))
+        ops.append(gen_getter(rng, t, view))
+    for _ in range(rng.choice([1, 1, 2])):
+        c = rng.random()
+        if c < 0.5:
+            ops.append(("yp", t, rng.choice([1, 2, 3, 4])))
+        elif c < 0.8 and t == "r":
+            # (on a view, unique() after a fetch is outside assumption A)
+            ops.append(("uq", t, rng.choice(["ident", "first", "parity"])))
+        elif (t == "r" or view == "mappings") and not sss:
+            idxs = [rng.randrange(cur_w) for _ in range(rng.randint(1, 2))]
+            ops.append(("cols", t, idxs))
+            cur_w = len(idxs)
+        else:
+            ops.append(("yp", t, rng.choice([1, 2, 3, 4])))
+        for _ in range(rng.choice([1, 2])):
+            ops.append(gen_getter(rng, t, view))
+    if rng.random() < 0.5:
+        ops.append(("all", t, "all"))
+    case["ops"] = ops
+    return case
+
+
 def tuplify(case):
     c = dict(case)
     c["ops"] = [tuple(o) for o in case["ops"]]
@@ -896,6 +994,16 @@ FIXED = [
 ]
 
 
+# checked by the oracle only (outside the model's envelope)
+FIXED_ORACLE_ONLY = [
+    # ORM single-entity result with a None entity (outer join): `if row is None` in
+    # _onerow_getter / _only_one_row reads the row as end-of-result
+    {"kind": "iter", "sss": True, "width": 1, "rows": [[50], [1]],
+     "ops": [("f1", "r"), ("all", "r", "all")]},
+    {"kind": "iter", "sss": True, "width": 1, "rows": [[50]], "ops": [("one", "r")]},
+]
+
+
 def trunc_for_model(case):
     """number of leading ops sent to the model: MergedResult after a hard close is outside
     the model (finding merged-result-close-not-enforced)"""
@@ -914,7 +1022,9 @@ def run(ctx, deep=False):
         "random op sequences (<=12 ops quick, <=30 thorough) over row lists of 0..8 (14) rows with duplicates, "
         "NULL/str/float values and (iterator kinds) unhashable values, on default / BufferedRow(max_row_buffer "
         "1..7,1000) / FullyBuffered CursorResults on SQLite, IteratorResult, ChunkedIteratorResult(dynamic or not), "
-        "MergedResult of 2-3 children, scalar sources, and thawed FrozenResults; a case is non-trivial when it has "
+        "MergedResult of 2-3 children, scalar sources, and thawed FrozenResults; every fourth case is a 'reconfigure "
+        "mid-stream' scenario (getter, then yield_per/unique/columns, then a getter again incl. size-less "
+        "fetchmany()/partitions(), 9..14 rows, every result kind); a case is non-trivial when it has "
         ">=1 row and >=1 fetching op; distinct = distinct (kind, rows, ops)")
     ctx.trusted.append("pysqlite cursor semantics (rows in ORDER BY order; fetchmany() arraysize 1), modelled as list take/drop")
     ctx.assumptions += [
@@ -928,9 +1038,17 @@ def run(ctx, deep=False):
         n = 2500 if ctx.tier == "quick" else 40000
         if deep:
             n = 60000
+        for case in (tuplify(c) for c in FIXED_ORACLE_ONLY):
+            outs, extras = run_impl(env, case)
+            bad = check_case(case, outs, extras)
+            if bad:
+                ctx.violation(bad[0], case, bad[2])
         cases = [tuplify(c) for c in FIXED]
-        for _ in range(n):
-            cases.append(gen_case(ctx.rng, ctx.tier if not deep else "thorough"))
+        for i in range(n):
+            if i % 4 == 3:
+                cases.append(gen_memo_scenario(ctx.rng, ctx.tier))
+            else:
+                cases.append(gen_case(ctx.rng, ctx.tier if not deep else "thorough"))
         corr_cases, impl_lines, reqs = [], [], []
         for case in cases:
             outs, extras = run_impl(env, case)
